@@ -346,4 +346,11 @@ def evaluate(case):
     if vals != wantv:
         bad = [names[i] for i in range(min(len(vals), len(wantv))) if vals[i] != wantv[i]]
         return core.R(False, 'labels', 'labels/' + case['op'], 'symbol values %s model %s (differs at %s) on %s' % (['%x' % v for v in vals], ['%x' % v for v in wantv], bad, desc))
+    # per-segment state must start every pass afresh: with a PHASE in the history (possibly left open at the end of the source)
+    # one forced further pass has to reproduce the code file
+    if any(x.startswith('PH') for x in seq):
+        o2 = core.run('asl', ['-q', 'a.asm'], env={'ASL_VERIF_EXTRA_PASSES': '1'})
+        p2 = core.get('a.p')
+        if o2.rc != 0 or p2 != p:
+            return core.R(False, 'extra-pass', 'extra-pass/' + case['op'], 'a forced further pass changes the result (rc %s, code file %s) on %s' % (o2.rc, 'differs' if p2 != p else 'same', desc), transitions=2)
     return core.R(True, 'match', states=[repr(s.canon())])
